@@ -31,6 +31,9 @@ Checked == phase = "checked"
 EvPeriod == period                                   \* None -> 0
 EvMult   == IF period = 0 THEN 0 ELSE num            \* period None forces a single dose; num None -> 0
 Horizon  == IF final = Unlimited THEN 12 ELSE final  \* bounded horizon for the unbounded case
+\* What else the model is asked to compute while it is dosed.  Nothing below mentions the mode: delivery is a function of
+\* the regimen alone.  The replayer draws one mode per exported configuration and holds the code to the same numbers.
+Modes == {"plain", "sens", "reselect", "reduced_fix", "sens_off"}
 
 \* ---- Decl: pacing semantics ----------------------------------------------------------------
 ActiveOcc(k) == IF EvPeriod = 0 THEN k = 0 ELSE IF EvMult = 0 THEN TRUE ELSE k < EvMult
